@@ -32,7 +32,8 @@ REQUIRED = ["histories", "rounds:redraw", "rounds:continue", "append_checked", "
             "confirmed_earlier_and_risk_now_above_limit", "histories_starting_with_construction_time_bounds_in_the_tests",
             "histories_through_the_point_where_the_clean_total_equals_N_t", "planning_call_from_assumed_rates_between_rounds", "rounds:mixed",
             "histories_in_which_a_contest_starts_in_a_later_round",
-            "continued_draws_handed_only_the_contests_that_grow"]
+            "continued_draws_handed_only_the_contests_that_grow",
+            "histories_whose_tests_are_configured_for_sampling_with_replacement"]
 ASSUMPTIONS = ["the 'measured risk is non-increasing' clause is asserted for tests configured with random_order=True (the "
                "factories' setting); for random_order=False the overall value is the last history entry, so only the "
                "append clause and the kept confirmation are asserted there", "polling is only generated without style (the library gives it the whole sample); without style the sample "
@@ -169,6 +170,13 @@ def run_variant(es, rounds, variant, rec):
             for asn in con.assertions.values():
                 if getattr(asn.test.test, "__name__", "") != "wald_sprt":
                     asn.test.random_order = False
+    if es.get("_with_replacement"):
+        # the risk functions configured for sampling WITH replacement (N = infinity: a conservative choice some audits make,
+        # and what a directly constructed test defaults to); Kaplan-Kolmogorov has no such form and keeps its N
+        for con in sim.contests.values():
+            for asn in con.assertions.values():
+                if getattr(asn.test.test, "__name__", "") != "kaplan_kolmogorov":
+                    asn.test.N = np.inf
     if es.get("_margins_not_via_cvrs"):
         # margins taken by a route that does not write the bound into the test objects (reported tallies, direct
         # assignment): the tests still hold their construction-time bound when the first round is evaluated
@@ -215,7 +223,7 @@ def run_variant(es, rounds, variant, rec):
         hist.append({"sel": idx, "data": data, "pv": pv, "thr": thr, "sizes": dict(sizes)})
         prev = idx
         rec.count(f"rounds:{variant}")
-        if es.get("_plan_between") and sim.use_style:
+        if es.get("_plan_between") and sim.use_style and not es.get("_with_replacement"):   # (planning needs a finite N)
             # a planning question between rounds, from assumed error rates rather than from the data (what one asks
             # when deciding how far to escalate); asking it must not change how the evidence is evaluated afterwards
             sim.audit.error_rate_2 = es["_plan_between"]["rate_2"]
@@ -246,6 +254,10 @@ def run_case(es, rec):
             cur += rng.randint(1, 3)
         es["_rounds"] = sizes
         rec.count("fine_grained_histories")
+    if "_with_replacement" not in es:
+        es["_with_replacement"] = rng.random() < 0.15
+    if es["_with_replacement"]:
+        rec.count("histories_whose_tests_are_configured_for_sampling_with_replacement")
     if "_plan_between" not in es:
         es["_plan_between"] = ({"rate_1": rng.choice((0, 0.001, 0.05)), "rate_2": rng.choice((0, 0.01, 0.05, 0.2))}
                                if rng.random() < 0.25 else None)
